@@ -38,4 +38,33 @@ example : strictEq (.num (.pos 1)) (.num (.flt F64.one)) = true := by decide +ke
 example : strictEq (.num (.pos 0)) (.num (.flt (F64.fin true 0))) = true := by decide +kernel
 example : strictEq (.arr []) (.arr []) = false := by decide
 
+/-! ## additions: operator-level symmetry; numbers compare as doubles -/
+
+/-- operator level symmetry: `{"===": [a, b]}` and `{"===": [b, a]}` (operands already evaluated) give the same result -/
+theorem op_strict_symm (a b : Json) : execEager "===".toList [a, b] = execEager "===".toList [b, a] := by
+  rw [op_strict_eq, op_strict_eq, strict_symm]
+
+theorem op_strict_ne_symm (a b : Json) : execEager "!==".toList [a, b] = execEager "!==".toList [b, a] := by
+  rw [op_strict_ne, op_strict_ne, strict_symm]
+
+/-- **On numbers `===` is equality of the doubles** (`f64 ==` of `as_f64()`): whichever of the three representations
+(`PosInt`, `NegInt`, `Float`) the two numbers have -/
+theorem strict_num_iff (x y : Num) : strictEq (.num x) (.num y) = F64.eq x.toF64 y.toF64 := rfl
+
+/-- a number is never strictly equal to a non-number -/
+theorem strict_num_other (x : Num) (b : Json) (h : ∀ y, b ≠ .num y) : strictEq (.num x) b = false := by
+  cases b <;> first | rfl | exact absurd rfl (h _)
+
+/-- 1 vs 1.0; 0 vs −0.0; 2^53 vs 2^53+1 (*equal* as doubles: both round to 9007199254740992.0), but 2^53 vs 2^53+2 differ;
+u64::MAX vs 2^64 as a float -/
+example : strictEq (.num (.pos 1)) (.num (.flt F64.one)) = true := by decide +kernel
+example : strictEq (.num (.pos 0)) (.num (.flt (F64.fin true 0))) = true := by decide +kernel
+example : strictEq (.num (.flt (F64.fin false 0))) (.num (.flt (F64.fin true 0))) = true := by decide +kernel
+example : strictEq (.num (.pos (2^53))) (.num (.pos (2^53 + 1))) = true := by decide +kernel
+example : strictEq (.num (.pos (2^53))) (.num (.pos (2^53 + 2))) = false := by decide +kernel
+example : strictEq (.num (.pos (2^64 - 1))) (.num (.flt (F64.ofNat (2^64)))) = true := by decide +kernel
+example : strictEq (.num (.neg 1)) (.num (.flt (F64.negate F64.one))) = true := by decide +kernel
+example : strictEq (.num (.pos 1)) (.str "1".toList) = false ∧ strictEq (.num (.pos 1)) (.bool true) = false := by decide +kernel
+example : execEager "===".toList [.num (.pos 1), .num (.flt F64.one)] = ⟨[], .ok (.bool true)⟩ := by decide +kernel
+
 end JL.Props.C08
